@@ -2844,6 +2844,9 @@ class LinearOperator(object):
                     )
                 )
 
+        # Negative integers and negative entries of tensor indices wrap around once, as in torch
+        index = tuple(_normalize_negative_index(idx, size) for idx, size in zip(index, self.shape))
+
         # Make the index a tuple again
         *batch_indices, row_index, col_index = index
 
@@ -3018,6 +3021,15 @@ class LinearOperator(object):
 
     def __truediv__(self, other: Union[torch.Tensor, float]) -> LinearOperator:
         return self.div(other)
+
+
+def _normalize_negative_index(idx: IndexType, size: int) -> IndexType:
+    r"""Maps index entries in [-size, 0) to [0, size); everything else (incl. out-of-range entries) is left as is."""
+    if isinstance(idx, int) and not isinstance(idx, bool):
+        return idx + size if -size <= idx < 0 else idx
+    if torch.is_tensor(idx) and idx.dtype != torch.bool and idx.numel():
+        return torch.where((idx < 0) & (idx >= -size), idx + size, idx)
+    return idx
 
 
 def _import_dotted_name(name: str):
